@@ -1,7 +1,7 @@
 """C43 -- the flow view always shows exactly the matching flows in order.
 
 Monitor (model/history, M1+M3): a real mitmproxy.addons.view.View inside taddons.context() is driven with a random history
-(add, mutate+update, update, remove, set filter, set order, reverse, marked-only toggle, clear, clear unmarked, focus moves,
+(add, mutate+update, mutate without update, update, remove, set filter, set order, reverse, marked-only toggle, clear, clear unmarked, focus moves,
 focus-follow, duplicate, settings writes, option-driven configuration) over a pool of 12 flows of every type.  After every
 operation the observable state is compared with a list model (vf/ref/c43_view.py) built on the independent filter
 evaluator of C42:
@@ -42,7 +42,7 @@ RULE = (
     "the filter verdict, at least one filter/order/marked-only/reverse change, and the view was non-empty at some point"
 )
 ASSUMPTIONS = [
-    "every mutation of a stored flow is followed by an update notification before the next observation (as the proxy hooks do)",
+    "flows may change without an update reaching the view; membership is judged as of the view's last look at a flow (add/update notification or rebuild by filter/marked-only change), order by any key the flow had since its last notification",
     "filters are drawn from a catalogue whose documented semantics are crisp (no header/body regexes)",
     "signal oracle is lenient: a sig_view_refresh covers any membership change that precedes it in the same operation",
 ]
@@ -130,6 +130,7 @@ def sync(fl, f):
     """Write the (mutated) facts into the real flow object."""
     fl.marked = f["marked"]
     fl.comment = f["comment"]
+    fl.timestamp_created = f["ts"]
     if f["error"] and not fl.error:
         fl.error = mflow.Error("boom", 946681207)
     elif not f["error"]:
@@ -156,7 +157,7 @@ def sync(fl, f):
 def mutate(r, f):
     """Change the facts of one flow; returns a label."""
     t = f["type"]
-    choices = ["mark", "comment", "error"]
+    choices = ["mark", "comment", "error", "ts"]
     if t == "http":
         choices += ["method", "path", "body", "resp", "resp", "code"]
     elif t in ("tcp", "udp"):
@@ -166,6 +167,8 @@ def mutate(r, f):
         f["marked"] = "" if (f["marked"] and r.random() < 0.6) else r.choice([":grapes:", "x", ":default:"])
     elif m == "comment":
         f["comment"] = r.choice(gen.COMMENTS)
+    elif m == "ts":
+        f["ts"] = 1000.0 + r.randint(0, 7)
     elif m == "error":
         f["error"] = not f["error"]
     elif m == "method":
@@ -271,7 +274,7 @@ def check_signals(events, before, after, store_before, store_after, updated_ids)
 # one history
 # ---------------------------------------------------------------------------------------------
 
-OPS = (["add"] * 6 + ["mutate_update"] * 8 + ["update"] * 2 + ["remove"] * 3 + ["set_filter"] * 4 + ["set_order"] * 4 + ["set_reversed"] * 2
+OPS = (["add"] * 6 + ["mutate_update"] * 8 + ["mutate_only"] * 5 + ["update"] * 2 + ["remove"] * 3 + ["set_filter"] * 4 + ["set_order"] * 4 + ["set_reversed"] * 2
        + ["toggle_marked"] * 3 + ["clear"] + ["clear_not_marked"] + ["focus"] * 3 + ["focus_follow"] + ["duplicate"] + ["settings"] * 2)
 
 
@@ -285,8 +288,22 @@ def run_case(ctx):
     lastkey = {}  # id -> {order: key at last notification}
     keyhist = {}  # id -> {order: every key the flow had at a notification since it entered the store}
     touched = set()  # ids with an add/update notification since the view was last rebuilt from the store (history predicate for M_MARKED)
+    vis = {}  # id -> shown?, decided when the view last looked at the flow (add / update notification, or a rebuild)
+    pend = {}  # id -> sort keys of every version of the flow since its last notification (first = as notified)
+
+    def allkeys(i):
+        return {o: ref.sort_key(facts[i], o) for o in ref.ORDERS}
+
+    def notify(i):
+        vis[i] = model.matches(facts[i])
+        pend[i] = [allkeys(i)]
+
+    def rebuild():
+        for i in model.store:
+            vis[i] = model.matches(facts[i])
+
     hist = []
-    feats = {"ops": set(), "orders": set(), "marked_only": False, "reversed": False, "filters": 0, "keychange": False, "ctl": False, "nonempty": False}
+    feats = {"ops": set(), "orders": set(), "marked_only": False, "reversed": False, "filters": 0, "keychange": False, "silent_keychange": False, "ctl": False, "nonempty": False}
     n_ops = r.choice([5, 10, 20, 30, 45, 60])
     v = view.View()
     with taddons.context(v) as tctx:
@@ -308,6 +325,7 @@ def run_case(ctx):
                         keyhist[i] = {o: [k] for o, k in lastkey[i].items()}
                         stale[i] = set()
                         touched.add(i)
+                        notify(i)
                 desc = f"add {len(ids)}"
             elif op in ("mutate_update", "update"):
                 ids = r.sample(list(flows), r.randint(1, 3))
@@ -336,8 +354,23 @@ def run_case(ctx):
                             if o == model.order and refreshed:
                                 stale[i].discard(o)
                         touched.add(i)
+                        notify(i)
                 updated_ids = [i for i in ids if i in model.store]
                 desc = f"{op} {','.join(labels)}"
+            elif op == "mutate_only":
+                # the flow object changes but no hook reaches the view (e.g. a script rewrites the request in the `request`
+                # hook): the view may keep showing/sorting it as last notified until the next update or rebuild
+                ids = r.sample(list(flows), r.randint(1, 3))
+                labels = []
+                for i in ids:
+                    labels.append(mutate(r, facts[i]))
+                    sync(flows[i], facts[i])
+                    if i in model.store:
+                        k = allkeys(i)
+                        if k != pend[i][-1]:
+                            feats["silent_keychange"] = True
+                        pend[i].append(k)
+                desc = f"mutate_only {','.join(labels)}"
             elif op == "remove":
                 ids = r.sample(list(flows), r.randint(1, 2))
                 v.remove([flows[i] for i in ids])
@@ -349,6 +382,8 @@ def run_case(ctx):
                         del model.store[i]
                         stale.pop(i, None)
                         lastkey.pop(i, None)
+                        vis.pop(i, None)
+                        pend.pop(i, None)
             elif op == "set_filter":
                 flt = r.choice(FILTERS)
                 feats["filters"] += 1
@@ -363,6 +398,7 @@ def run_case(ctx):
                     v.set_filter(parsed_filter(text) if text else None)
                 model.filter = flt
                 touched.clear()
+                rebuild()
                 desc = f"set_filter {text!r}"
             elif op == "set_order":
                 o = r.choice(ref.ORDERS)
@@ -387,12 +423,15 @@ def run_case(ctx):
                 v.toggle_marked()
                 model.show_marked = not model.show_marked
                 touched.clear()
+                rebuild()
             elif op == "clear":
                 v.clear()
                 model.store.clear()
                 stale.clear()
                 lastkey.clear()
                 touched.clear()
+                vis.clear()
+                pend.clear()
             elif op == "clear_not_marked":
                 v.clear_not_marked()
                 touched.clear()
@@ -400,6 +439,9 @@ def run_case(ctx):
                     del model.store[i]
                     stale.pop(i, None)
                     lastkey.pop(i, None)
+                    vis.pop(i, None)
+                    pend.pop(i, None)
+                rebuild()
             elif op == "focus":
                 k = r.choice(["go", "next", "prev"])
                 if k == "go":
@@ -433,6 +475,7 @@ def run_case(ctx):
                         keyhist[fl.id] = {o: [k] for o, k in lastkey[fl.id].items()}
                         stale[fl.id] = set()
                         touched.add(fl.id)
+                        notify(fl.id)
             elif op == "settings":
                 stored = list(v._store.values())
                 if stored:
@@ -462,7 +505,7 @@ def run_case(ctx):
                 return d
 
             ctx.count("membership")
-            exp = model.visible_ids()
+            exp = {i for i in model.store if vis[i]}
             if len(after) != len(set(after)):
                 ctx.violation("flow-listed-twice", wit())
             if set(after) != exp or not set(after) <= set(model.store):
@@ -478,12 +521,14 @@ def run_case(ctx):
 
             ctx.count("order")
             listed = [i for i in after if i in model.store]
-            if not model.is_sorted(listed):
+            # a flow that changed without notification may be sorted by any key it had since the view last heard of it
+            base = [sorted({p[model.order] for p in pend[i]}) for i in listed]
+            if not sortable_with(base, model.reversed):
                 # explained only if the list is sorted once every flow whose key changed while it was hidden or another
-                # order was selected is allowed to sit at one of its earlier keys
-                cands = [sorted(set(keyhist[i][model.order])) if model.order in stale.get(i, ()) else [model.key(i)] for i in listed]
+                # order was selected is also allowed to sit at one of its earlier keys
+                cands = [sorted(set(b) | set(keyhist[i][model.order])) if model.order in stale.get(i, ()) else b for i, b in zip(listed, base)]
                 mech = M_STALE if sortable_with(cands, model.reversed) else None
-                ctx.violation("not-sorted", wit(keys=[model.key(i) for i in listed][:20], possibly_stale=[model.order in stale.get(i, ()) for i in listed][:20]), mech)
+                ctx.violation("not-sorted", wit(keys=base[:20], possibly_stale=[model.order in stale.get(i, ()) for i in listed][:20]), mech)
 
             ctx.count("focus")
             fo = v.focus.flow
@@ -503,7 +548,7 @@ def run_case(ctx):
                 ctx.violation("signals:" + p, wit(events=[e[:2] if e[0] != "refresh" else ("refresh", len(e[1])) for e in rec.events][:20], before=len(before), after=len(after)))
             ctx.seen("signal_sequences", f"{op}:" + ",".join(e[0] for e in rec.events)[:80])
 
-    sig = (tuple(sorted(feats["ops"])), tuple(sorted(feats["orders"])), feats["marked_only"], feats["reversed"], min(feats["filters"], 3), n_ops)
+    sig = (tuple(sorted(feats["ops"])), tuple(sorted(feats["orders"])), feats["marked_only"], feats["reversed"], min(feats["filters"], 3), n_ops, feats["silent_keychange"])
     nontrivial = feats["keychange"] and feats["ctl"] and feats["nonempty"]
     ctx.case(sig, nontrivial, {"history": hist[:40], "final_view_len": len(after) if n_ops else 0})
 
